@@ -204,6 +204,61 @@ def distribute_suffix(S, cfg):
 distribute_suffix.cname = 'Orificing.distribute/suffix'
 
 
+def distribute_prefix(S, cfg):
+    """the total flow the distribution starts from: first pass - the flow that takes the total power at the bulk
+    outlet temperature target (the real Q_equals_mCdT, recorded); later passes - the previous total rescaled so that
+    m_new (T_target - T_in) = m_prev (T_out_prev - T_in)"""
+    from dassh import orificing
+    import dassh
+    later = cfg.get('later', False)
+    n = 4
+    o = _orif(S, 2)
+    o.t_in = S.pos('t_in', 600.0, 650.0)
+    rise = S.pos('target_rise', 100.0, 200.0)
+    o.orifice_input['bulk_coolant_temp'] = o.t_in + rise
+    o.coolant = object()
+    o.group_data = np.zeros((n, 3))
+    o.group_data[:, 2] = [0, 0, 1, 1]
+    o._power = np.array([[i, S.pos(f'P{i}', 1e5, 5e5)] for i in range(n)], dtype=object if S.mode == 'sym' else float)
+    o._parametric = {'data': [], 'asm_ids': np.array([[i, 0] for i in range(n)])}
+    o._calc_corrective_ratio = lambda xy, res_prev: 1.0
+    rec = {}
+
+    def q_equals(power, t_in, coolant, t_out=None, mfr=None):
+        rec.update(power=power, t_in=t_in, t_out=t_out)
+        return S.pos('m_first_pass', 50.0, 500.0)
+    cut = loopcut.Cut(orificing.Orificing.distribute, 0, kind='While')
+    if later:
+        flows = S.vec('m_prev', n, 'pos', 10.0, 50.0)
+        res_prev = np.zeros((2 * n, 5), dtype=object if S.mode == 'sym' else float)
+        for t in range(2):                       # two time points; the first one carries the flows that count
+            for i in range(n):
+                res_prev[t * n + i, 0] = t
+                res_prev[t * n + i, 3] = flows[i] if t == 0 else flows[i] * 2
+        t_out_prev = o.t_in + S.pos('prev_rise', 80.0, 220.0)
+    else:
+        res_prev, t_out_prev = None, None
+    with common.patched((dassh, 'Q_equals_mCdT', q_equals)):
+        loc = cut.run_prefix(self=o, res_prev=res_prev, t_out_prev=t_out_prev)
+    m_total = loc['m_total']
+    if later:
+        S.eq('prefix.total_rescaled_by_temperature_rises', m_total * rise, sum(flows) * (t_out_prev - o.t_in))
+        S.holds('prefix.no_first_pass_estimate', not rec)
+    else:
+        S.holds('prefix.first_pass_uses_power_and_target', bool(rec))
+        S.eq('prefix.first_pass_power', rec['power'], sum(o._power[i, 1] for i in range(n)))
+        S.eq('prefix.first_pass_inlet', rec['t_in'], o.t_in)
+        S.eq('prefix.first_pass_target', rec['t_out'], o.orifice_input['bulk_coolant_temp'])
+    # the loop starts from equal flows that sum to the total
+    S.eq('prefix.initial_flows_sum_to_total', sum(loc['m']), m_total)
+    S.holds('prefix.no_limit_without_input', loc['m_lim'] is None)
+    S.eq('canary.prefix_total_is_one', m_total, 1 + 0 * m_total, canary=True)
+
+
+distribute_prefix.cname = 'Orificing.distribute/prefix'
+distribute_prefix.run_kw = dict(check_div=False)
+
+
 def configs(tier):
     out = [(check_new_group, dict(n=2)),
            (group_body, dict(n=4, n_groups=2)), (group_body, dict(n=4, n_groups=3)),
@@ -216,6 +271,7 @@ def configs(tier):
            (distribute_body, dict(n_groups=3, labels=[0, 1, 1, 2])),
            (distribute_body, dict(n_groups=2, labels=[0, 0, 1], types=[0, 1, 0], limit=True)),
            (distribute_body, dict(n_groups=3, labels=[0, 0, 1, 1, 2], types=[1, 0, 0, 2, 1], limit=True)),
+           (distribute_prefix, dict()), (distribute_prefix, dict(later=True)),
            (distribute_suffix, dict(m=[4.0, 4.0, 2.0], dp_limit=[0, 0], ok=True)),
            (distribute_suffix, dict(m=[6.0, 6.0, 3.0], dp_limit=[0, 0], ok=False)),
            (distribute_suffix, dict(m=[4.0, 4.0, 2.0], dp_limit=[1, 1], ok=False)),
